@@ -172,6 +172,10 @@ Fixpoint d_run (d : list (Z * Z)) (ops : list c_op) : list (Z * Z) * list c_out 
   | op :: t => let (d1, x) := d_step d op in let (d2, xs) := d_run d1 t in (d2, x :: xs)
   end.
 
+(* does the operation change what is stored under k *)
+Definition writes_key (k : Z) (op : c_op) : bool :=
+  match op with CSet k' _ => k' =? k | CDel k' => k' =? k | _ => false end.
+
 (* ---- several caches (a root and its sub-caches): each has its own container *)
 Inductive m_op :=
 | MOp (i : nat) (op : c_op)      (* operation on cache number i *)
